@@ -1,7 +1,7 @@
 (* C05 -- Deduplication answers are truthful.  Statements only. *)
 From Coq Require Import NArith Bool List.
 Import ListNotations.
-From XetModel Require Import Base.Codec Gen.ShardLayout Model.Merkle Model.Shard Proofs.CodecProofs Proofs.ShardProofs Proofs.DedupProofs Model.Dedup Proofs.PipelineProofs Proofs.ResolveProofs Proofs.BytesProofs.
+From XetModel Require Import Base.Codec Gen.ShardLayout Model.Merkle Model.Shard Proofs.CodecProofs Proofs.ShardProofs Proofs.DedupProofs Model.Dedup Proofs.PipelineProofs Proofs.ResolveProofs Proofs.BytesProofs Proofs.ShardWholeProofs Proofs.ShardDedupWholeProofs.
 Open Scope N_scope.
 
 (* "truthful" (Proofs/DedupProofs.v): 1 <= n <= |qs|; the segment names xorb c, spans [a, a+n) within c's chunks;
@@ -45,7 +45,22 @@ Proof.
   unfold local_query in Q. destruct cs as [|c r]; [discriminate|]. cbn [map] in Q. destruct (lk _ _); [|discriminate]. injection Q as _ <-. reflexivity.
 Qed.
 
+(* on disk, end to end: for every shard serialize_from writes (d_bs: records, lookup tables, footer; the chunk table is the
+   sorted table of truncated chunk hashes) the hypothesis of C05_direct_bytes_is_rec is discharged -- the chunk table read back
+   from the bytes is the table written, each entry points at the block and chunk it was made from, the search hands out only
+   such entries -- so whatever chunk_hash_dedup_query reports is a real run of one of the shard's blocks, for every probe
+   function, every query and every key *)
+Theorem C05_ondisk_truthful_end_to_end : forall files cass key created expiry,
+  Forall wf_file files -> Forall wf_cas cass -> is_hash key -> is_u64 created -> is_u64 expiry ->
+  is_u64 (sum_ndisk cass) -> is_u64 (sum_materialized files) -> is_u64 (sum_nbytes cass) ->
+  Forall (fun c => Forall (fun ch => Forall (fun b => b < 256) (ce_hash ch)) (ci_chunks c)) cass ->
+  N.of_nat (length (d_bs files cass key created expiry)) < 4294967296 ->
+  forall probe qs n s, dedup_query probe (d_bs files cass key created expiry) (d_ft files cass key created expiry) qs = Found (Some (n, s)) ->
+  exists c, In c cass /\ truthful key c qs n s.
+Proof. intros files cass key created expiry A B C D E F G H I J probe qs n s. apply d_dedup_truthful; assumption. Qed.
+
 Print Assumptions C05_direct_truthful.
 Print Assumptions C05_direct_bytes_is_rec.
 Print Assumptions C05_inmem_truthful.
 Print Assumptions C05_local_lookup_truthful.
+Print Assumptions C05_ondisk_truthful_end_to_end.
